@@ -63,6 +63,39 @@ pub fn run(case: &Value) -> Value {
         }
         "chardata" => chardata(case),
         "create" => create(case),
+        "dom_order" => {
+            // insert_before on children of one kind, then: child list order vs the order XPath sorts them in (by order keys)
+            use xml_dom::{AsNode, Document, DocumentMut, Node, NodeMut};
+            let variant = case["variant"].as_str().unwrap_or("Element");
+            let src = match variant {
+                "CData" => "<r><![CDATA[c0]]><![CDATA[c1]]></r>",
+                "Comment" => "<r><!--c0--><!--c1--></r>",
+                _ => "<r><c0/><c1/></r>",
+            };
+            let (_, doc) = xml_dom::XmlDocument::from_raw(src).unwrap();
+            let root = doc.document_element().unwrap();
+            let kids: Vec<xml_dom::XmlNode> = root.child_nodes().iter().collect();
+            let mover = case["mover"].as_u64().unwrap_or(0) as usize;
+            let node = if mover >= kids.len() {
+                match variant {
+                    "CData" => doc.create_cdata_section("new").as_node(),
+                    "Comment" => doc.create_comment("new").as_node(),
+                    _ => doc.create_element("new").unwrap().as_node(),
+                }
+            } else {
+                kids[mover].clone()
+            };
+            let anchor = case["anchor"].as_u64().map(|a| kids[a as usize].clone());
+            let r = root.insert_before(node, anchor.as_ref());
+            let label = |n: &xml_dom::XmlNode| -> String { let v = n.node_value().ok().flatten().unwrap_or_default(); if v.is_empty() { n.node_name() } else { v } };
+            let by_list: Vec<String> = root.child_nodes().iter().map(|n| label(&n)).collect();
+            let mut ctx = xml_xpath::eval::model::Context::default();
+            let by_keys: Vec<String> = match xml_xpath::query(doc.clone(), "/r/node()", &mut ctx) {
+                Ok(xml_xpath::eval::model::Value::Node(ns)) => ns.iter().map(|n| label(n)).collect(),
+                other => vec![format!("{:?}", other.map(|v| format!("{:?}", v)))],
+            };
+            json!({"ok": r.is_ok(), "child_list": by_list, "by_order_keys": by_keys})
+        }
         "queries" => {
             // a series of queries against ONE document and ONE context, then each again with a fresh context
             let doc = case["doc"].as_str().unwrap_or("<r/>");
